@@ -62,22 +62,35 @@ Theorem C04_below_start : forall r loopMS c id now,
 Proof. exact lookup_below_start. Qed.
 Print Assumptions C04_below_start.
 
-(** float64: the Go code evaluates the availability test in float64 ([checkTimeF], bit-faithful,
-    run against the implementation by the correspondence).  The segment lookup around it is
-    integer code, so the float64 lookup equals the exact one whenever the two tests agree on the
-    instance at hand... *)
+(** float64: the Go code evaluates the availability test in float64, rounding both instants to
+    whole microseconds before comparing them ([checkTimeF], bit-faithful, run against the
+    implementation by the correspondence).  The segment lookup around it is integer code, so the
+    float64 lookup equals the exact one whenever the two tests agree on the instance at hand. *)
 Theorem C04_float_bridge : forall (ck1 ck2 : chk) r loopMS c mode segID now,
   (forall A, ck1 A (ts r) now (tsbdS c) (ato c) = ck2 A (ts r) now (tsbdS c) (ato c)) ->
   lookupG ck1 r loopMS c mode segID now = lookupG ck2 r loopMS c mode segID now.
 Proof. exact lookupG_ext. Qed.
 Print Assumptions C04_float_bridge.
 
-(** ... and they do not always agree: the full statement "available exactly at A" is false of the
-    float64 code at an instant on the millisecond grid (known finding float-edge-first-instant-with-ato). *)
-Theorem C04_float_edge_refuted : exists A tsc now tsbd a,
-  checkTime A tsc now tsbd a = TvOk /\ checkTimeF A tsc now tsbd a = TvTooEarly 0.
-Proof. exists (60060 + 30 * 30000), 30000, 31502, 3600, (Some 500). exact checkTimeF_edge_witness. Qed.
-Print Assumptions C04_float_edge_refuted.
+(** The microsecond comparison, evaluated exactly ([checkTimeU]), is the exact test whenever the
+    availability instant is a whole number of milliseconds: on the millisecond grid the
+    transitions are exact. (Off the grid the two can differ for instants closer than 0.5 us to
+    the transition; the correspondence compares [checkTimeF] with [checkTime] on every case
+    except within 2 ms of an off-grid transition.) *)
+Theorem C04_microsecond_grid : forall A Ams tsc tsbd a now,
+  0 < tsc -> A * 1000 = Ams * tsc -> (forall ms, a = Some ms -> 0 <= ms) ->
+  checkTimeU A tsc now tsbd a = checkTime A tsc now tsbd a.
+Proof. exact checkTimeU_grid. Qed.
+Print Assumptions C04_microsecond_grid.
+
+(** The instant at which the original float64 comparison refused a segment at its exact
+    availability instant (fixed defect): accepted now, and refused one millisecond earlier. *)
+Theorem C04_float_edge : 
+  checkTime (60060 + 30 * 30000) 30000 31502 3600 (Some 500) = TvOk /\
+  checkTimeF (60060 + 30 * 30000) 30000 31502 3600 (Some 500) = TvOk /\
+  checkTimeF (60060 + 30 * 30000) 30000 31501 3600 (Some 500) = TvTooEarly 1.
+Proof. exact checkTimeF_edge_ok. Qed.
+Print Assumptions C04_float_edge.
 
 (** The margin used by the model is the constant of the Go source (regenerated on every run). *)
 Theorem C04_margin_const : Consts.app_timeShiftBufferDepthMarginS = tsbdMarginS
